@@ -108,7 +108,7 @@ def build_documents(ctx):
                 muts = keep + ctx.rng.sample(rest, min(len(rest), 14))
             muts += xswdoc.random_placements(ctx.rng, g, level, (24 if full else 6) * (1 if ctx.quick else 6))
             # ---- the identifier itself: look-alike ID attributes (object vs text), normalisation on the tool side
-            ida = c01ids.identifier_differentials(g, level, ctx.rng, thin=not (full and (level != "both" or not ctx.quick)))
+            ida = c01ids.identifier_differentials(g, level, ctx.rng, thin=(False if not ctx.quick else ("partly" if full and level != "both" else True)))
             idb = c01ids.tool_side_normalisation(g, level)
             if not full:
                 ida = ctx.rng.sample(ida, min(len(ida), 6))
@@ -407,6 +407,9 @@ def oracle_pipeline(ctx, docs):
         full = (d.alg == ALGS[main][0]) or not ctx.quick
         required = {"response": (True, False, False), "assertion": (False, True, False), "both": (True, True, False)}[d.level]
         settings = SETTINGS if full else [required, (False, False, True), ctx.rng.choice(SETTINGS)]
+        if full and ctx.quick and d.name.startswith("id-"):
+            # the identifier families: each single requirement and the document's own one (quick tier)
+            settings = sorted(set([(True, False, False), (False, True, False), (False, False, True), required]))
         root = xswdoc.parse_text(d.xml)
         dup = has_dup_ids(root)
         for st in settings:
